@@ -109,15 +109,18 @@ def me3_reduced(ctx, rep):
     G = P.G
     ms = P.ev.get("METRIC:action_reduced", [])
     red = P.ev.get("REDUCE", [])
-    if not rep.exact(R, "action_reduced sites", len(ms), 1) or len(red) != 1:
+    if not rep.floor(R, "action_reduced sites", len(ms), 1) or len(red) != 1:
         return
     k, s = ms[0]
     rk, rs = red[0]
-    M = {k}
+    # several sites are one count when they lie on disjoint paths of a pass (an early return for
+    # an empty reducer list that accounts for the empty pass itself)
+    M = {mk for mk, _ in ms}
     # once per pass at most, never inside the reducer loop
-    rep.check(k not in G.reach_after([k], avoid=P.recv), R, "once-per-action", s.where, "action_reduced at most once per pass (not once per reducer)", "action_reduced can be called several times per pass")
+    again = G.reach_after(list(M), avoid=P.recv)
+    rep.check(not (M & again), R, "once-per-action", s.where, "action_reduced at most once per pass (not once per reducer)", "action_reduced can be called several times per pass")
     # after the reducers: no reducer call can follow it within the pass
-    rep.check(rk not in G.reach_after([k], avoid=P.recv), R, "after-the-reducer-loop", s.where, "counted after the reducers ran", "a reducer can still run after the count")
+    rep.check(rk not in again, R, "after-the-reducer-loop", s.where, "counted after the reducers ran", "a reducer can still run after the count")
     # the veto flag (cleared by before_reduce DoneAction) guards it exactly like the reducers
     pf = getattr(ctx, "_phase_flags", None)
     if pf is None or "before_reduce" not in pf:
@@ -135,8 +138,8 @@ def me3_reduced(ctx, rep):
         return
     w_veto = G.reach_corr(P.recv, avoid=P.recv, after=True, forbid_edges=te)
     w_run = G.reach_corr(P.recv, avoid=P.recv, after=True, forbid_edges=fe)
-    rep.check(k not in w_veto, R, "not-counted-when-vetoed", s.where, "a vetoed action is not counted as reduced", "action_reduced is also reached when a middleware vetoed the action")
-    rep.check(k in w_run, R, "counted-when-reduced", s.where, "counted on the path that ran the reducers", "not reached on the path that runs the reducers")
+    rep.check(not (M & w_veto), R, "not-counted-when-vetoed", s.where, "a vetoed action is not counted as reduced", "action_reduced is also reached when a middleware vetoed the action")
+    rep.check(bool(M & w_run), R, "counted-when-reduced", s.where, "counted on the path that ran the reducers", "not reached on the path that runs the reducers")
     # every reduced action is counted: in the non-vetoed world every path from the receive to the
     # next receive passes the count
     r = G.reach_corr(P.recv, avoid=set(M), after=True, forbid_edges=fe)
